@@ -19,6 +19,7 @@ var table = map[string]func(tier string) int{
 	"C09": checks.C09,
 	"C10": checks.C10,
 	"C11": checks.C11,
+	"C16": checks.C16,
 	"C20": checks.C20,
 }
 
